@@ -176,8 +176,9 @@ type IRDom struct {
 	Dominates []string // row b: decimal of the bit set { c | Blocks[b].Dominates(Blocks[c]) }
 	Idom      []int    // -1 = nil
 	Dominees  [][]int
-	Pre       []int // DomPreorder as block indices
+	Pre       []int // DomPreorder as block indices (second of two calls, see DomOf)
 	Post      []int // DomPostorder
+	Aliased   bool  // two successive calls of a listing returned the same backing array
 }
 
 // BlockIndex resolves a block to its position in fn.Blocks by identity (not by the Index field, which
@@ -236,12 +237,26 @@ func DomOf(fn *ir.Function) IRDom {
 		}
 		d.Dominees = append(d.Dominees, kids)
 	}
-	for _, b := range fn.DomPreorder() {
-		d.Pre = append(d.Pre, BlockIndex(pos, b))
+	// "DomPreorder returns a new slice": every call must return a fresh, correct listing. The first result is
+	// reversed in place (as a client doing a bottom-up walk would), then the listing is queried again and the
+	// SECOND result is what gets checked; the two results must not share storage.
+	query := func(get func() []*ir.BasicBlock) []int {
+		first := get()
+		for i, j := 0, len(first)-1; i < j; i, j = i+1, j-1 {
+			first[i], first[j] = first[j], first[i]
+		}
+		second := get()
+		if len(first) > 0 && len(second) > 0 && &first[0] == &second[0] {
+			d.Aliased = true
+		}
+		var res []int
+		for _, b := range second {
+			res = append(res, BlockIndex(pos, b))
+		}
+		return res
 	}
-	for _, b := range fn.DomPostorder() {
-		d.Post = append(d.Post, BlockIndex(pos, b))
-	}
+	d.Pre = query(fn.DomPreorder)
+	d.Post = query(fn.DomPostorder)
 	return d
 }
 
